@@ -66,7 +66,15 @@ func runOne(ctx context.Context, sp solverSpec, file string, timeout time.Durati
 	t0 := time.Now()
 	err := cmd.Run()
 	el := time.Since(t0).Seconds()
-	first := strings.TrimSpace(strings.SplitN(out.String(), "\n", 2)[0])
+	first := ""
+	for _, ln := range strings.Split(out.String(), "\n") {
+		ln = strings.TrimSpace(ln)
+		if ln == "" || strings.HasPrefix(ln, "WARNING") {
+			continue
+		}
+		first = ln
+		break
+	}
 	res := SolverResult{Solver: sp.name, Time: el, Output: out.String()}
 	switch first {
 	case "unsat", "sat", "unknown":
